@@ -67,8 +67,7 @@ def _sim_states(c):
         elif op[0] == 'x':
             if fl == 'on' and helper == 'exit':
                 helper = 'left'
-                free += 1
-                admit()
+                cancel(range(len(st)))
             elif helper == 'active':
                 cancel(range(len(st)))
                 helper = 'left'
